@@ -2204,9 +2204,10 @@ func DecodeQueuedState(buf []byte) (*QueuedState, error) {
 	r := newBufferReader(buf, "QueuedState")
 	q := &QueuedState{}
 
-	// Routes
+	// Routes. The counts come from the wire: never reserve more entries than the remaining
+	// bytes can hold (every entry carries at least its 2-byte length prefix).
 	routeCount := int(r.readUint16())
-	q.Routes = make([]RouteAdvertise, 0, routeCount)
+	q.Routes = make([]RouteAdvertise, 0, min(routeCount, r.remaining()/2))
 	for i := 0; i < routeCount && r.err == nil; i++ {
 		length := int(r.readUint16())
 		data := r.readBytes(length)
@@ -2222,7 +2223,7 @@ func DecodeQueuedState(buf []byte) (*QueuedState, error) {
 
 	// Withdraws
 	withdrawCount := int(r.readUint16())
-	q.Withdraws = make([]RouteWithdraw, 0, withdrawCount)
+	q.Withdraws = make([]RouteWithdraw, 0, min(withdrawCount, r.remaining()/2))
 	for i := 0; i < withdrawCount && r.err == nil; i++ {
 		length := int(r.readUint16())
 		data := r.readBytes(length)
@@ -2238,7 +2239,7 @@ func DecodeQueuedState(buf []byte) (*QueuedState, error) {
 
 	// NodeInfos
 	nodeInfoCount := int(r.readUint16())
-	q.NodeInfos = make([]NodeInfoAdvertise, 0, nodeInfoCount)
+	q.NodeInfos = make([]NodeInfoAdvertise, 0, min(nodeInfoCount, r.remaining()/2))
 	for i := 0; i < nodeInfoCount && r.err == nil; i++ {
 		length := int(r.readUint16())
 		data := r.readBytes(length)
